@@ -477,6 +477,7 @@ def _db_retry_runs(c0, case, base, res, brng, shape):
     from sqlalchemy import event
     import mistral.db.sqlalchemy.base as b
     labels = []
+    other = []
     for ev in base.world.rec.events:
         if ev['kind'] == 'UNIT_END' and ev.get('ukind2') == 'rpc' and \
                 not ev.get('exc') and ev.get('label') and any(
@@ -484,9 +485,16 @@ def _db_retry_runs(c0, case, base, res, brng, shape):
                                                'start_task',
                                                'start_workflow')):
             labels.append(ev['label'])
+        # post-commit operations and scheduled engine functions as well
+        # (the scheduler's own capture / delete statements excepted: C13)
+        if ev['kind'] == 'UNIT_END' and not ev.get('exc') and \
+                ev.get('ukind2') in ('posttx', 'job') and ev.get('label'):
+            other.append(ev['label'])
     labels = sorted(set(labels))
     brng.shuffle(labels)
-    for label in labels[:3]:
+    other = sorted(set(other))
+    brng.shuffle(other)
+    for label in labels[:3] + other[:2]:
         k = brng.randint(1, 5)
         st = {'n': 0, 'hit': None}
 
@@ -504,6 +512,12 @@ def _db_retry_runs(c0, case, base, res, brng, shape):
                     return
                 head = statement.lstrip()[:6].upper()
                 if head in ('SELECT', 'PRAGMA'):
+                    return
+                if label.startswith('job:') and (
+                        head not in ('INSERT', 'UPDATE', 'DELETE') or (
+                            ('scheduled_jobs_v2' in statement or
+                             'delayed_calls_v2' in statement) and
+                            head != 'INSERT')):
                     return
                 st['n'] += 1
                 if st['n'] == k:
